@@ -4,7 +4,7 @@
 
 use crate::props::c03::{bind, render_arg};
 use crate::rng::Rng;
-use crate::sim::{self, Core, SimWriter, StartInfo};
+use crate::sim::{self, Core, StartInfo};
 use duckscript::runner;
 use duckscript::types::command::{Command, CommandInvocationContext, CommandResult, Commands};
 use duckscript::types::env::Env;
@@ -34,6 +34,9 @@ pub enum Cond {
     Call { f: String, args: Vec<String> },
     /// `not not <literal>`: the condition command invoked from inside its own evaluation
     NotNot(String),
+    /// `nlout <value>` as the condition command: it answers the value followed by a line break (what a command that
+    /// reads a file or a child process's output hands back); such a text is not one of the false values
+    NlOut(String),
     /// a script-implemented library command in condition position (`array_contains ${a<k>} <value>`: its script uses
     /// for / if / end itself while the caller's block keyword is being evaluated)
     Lib { arr: usize, val: String },
@@ -126,6 +129,7 @@ pub fn render_cond(c: &Cond) -> String {
             s
         }
         Cond::NotNot(v) => format!("not not {}", rarg(v)),
+        Cond::NlOut(v) => format!("nlout {}", rarg(v)),
         Cond::Lib { arr, val } => format!("array_contains ${{a{}}} {}", arr, rarg(val)),
     }
 }
@@ -432,6 +436,10 @@ impl<'a> Interp<'a> {
                 self.probes.push("not-not-condition");
                 Ok(truthy(v))
             }
+            Cond::NlOut(v) => {
+                self.probes.push("condition-output-with-line-break");
+                Ok(truthy(&format!("{}\n", v)))
+            }
             Cond::Lib { arr, val } => {
                 let name = format!("a{}", arr);
                 let fr = self.cur_ref();
@@ -710,6 +718,8 @@ pub struct World {
     pub leaf: u32,
     pub fail_leaf: Vec<u32>,
     pub emitted: usize,
+    /// sites of `cfail` that already failed once
+    pub cfail_seen: BTreeSet<String>,
 }
 
 thread_local! {
@@ -841,6 +851,45 @@ impl Command for HfailCmd {
     }
 }
 
+/// `nlout <value>`: answers the value followed by a line break
+#[derive(Clone)]
+struct NlOutCmd;
+
+impl Command for NlOutCmd {
+    fn name(&self) -> String {
+        "nlout".to_string()
+    }
+    fn clone_and_box(&self) -> Box<dyn Command> {
+        Box::new(self.clone())
+    }
+    fn run(&self, ctx: CommandInvocationContext) -> CommandResult {
+        CommandResult::Continue(Some(format!("{}\n", ctx.arguments.first().cloned().unwrap_or_default())))
+    }
+}
+
+/// `cfail <site>`: a condition command that reports an error the first time it is asked at a site and answers false
+/// afterwards (a block header whose condition fails once: the error belongs to the block command)
+#[derive(Clone)]
+struct CfailCmd;
+
+impl Command for CfailCmd {
+    fn name(&self) -> String {
+        "cfail".to_string()
+    }
+    fn clone_and_box(&self) -> Box<dyn Command> {
+        Box::new(self.clone())
+    }
+    fn run(&self, ctx: CommandInvocationContext) -> CommandResult {
+        let site = ctx.arguments.first().cloned().unwrap_or_default();
+        let first = WORLD.with(|w| w.borrow_mut().as_mut().map(|w| w.cfail_seen.insert(site.clone())).unwrap_or(false));
+        if first {
+            CommandResult::Error(format!("cfail-{}", site))
+        } else {
+            CommandResult::Continue(Some("false".to_string()))
+        }
+    }
+}
+
 /// `subrun <n>`: a nested run of an n-line script on a context of its own that shares the embedder's halt flag (what a
 /// command that evaluates a script of its own does). No emit, no effect on the caller's variables: invisible to the
 /// models. Once the flag is up the nested run stops, and so must the run it was called from.
@@ -925,6 +974,8 @@ pub fn add_harness(commands: &mut Commands) {
     commands.set(Box::new(CndCmd)).unwrap();
     commands.set(Box::new(HfailCmd)).unwrap();
     commands.set(Box::new(SubrunCmd)).unwrap();
+    commands.set(Box::new(CfailCmd)).unwrap();
+    commands.set(Box::new(NlOutCmd)).unwrap();
 }
 
 pub const LEAVES: [&str; 3] = ["emit", "std::var::Set", "hfail"];
@@ -963,6 +1014,7 @@ pub fn install_world(p: &Program, expected: Option<Vec<ExpEmit>>) {
             leaf: 0,
             fail_leaf: p.fail_leaf.clone(),
             emitted: 0,
+            cfail_seen: BTreeSet::new(),
         })
     });
     sim::with_core(|c| c.pre_hook = Some(leaf_fault));
@@ -979,9 +1031,7 @@ pub fn run_real(p: &Program, halt: Option<Arc<AtomicBool>>, expected: Option<Vec
     add_harness(&mut context.commands);
     sim::decorate(&mut context.commands);
     install_world(p, expected);
-    let out = SimWriter::new("out", vec![]);
-    let err = SimWriter::new("err", vec![]);
-    let env = Env::new(Some(Box::new(out)), Some(Box::new(err)), halt);
+    let env = sim::embedder_env(halt);
     runner::run_script(&text, context, Some(env))
 }
 
@@ -1126,6 +1176,7 @@ impl<'r> G<'r> {
                 let n = 2 + self.rng.usize(2);
                 Cond::Or((0..n).map(|_| self.cond_value(ctx)).collect())
             }
+            5 if self.rng.chance(1, 5) => Cond::NlOut(self.rng.pick(&["false", "0", "no", "", "true", "x"]).to_string()),
             5 if self.rng.chance(1, 4) => Cond::NotNot(self.rng.pick(&["true", "false", "0", "yes", "OR", "hello", "no"]).to_string()),
             6 if self.n_arrays > 0 && !ctx.scoped && self.opts.lib_calls && self.rng.chance(1, 3) => Cond::Lib { arr: self.rng.usize(self.n_arrays), val: self.rng.pick(&["a", "b", "c", "d d", "zz"]).to_string() },
             5 | 6 => Cond::Cnd { site: self.new_cnd(3), negate: self.rng.chance(1, 4) },
